@@ -11,7 +11,7 @@ class C03(SessionCheck):
     RULE = ('lock-step histories on the real Session/RPC/RPCReplyListener objects over the three transports and 14 profiles: '
             '1-6 pipelined asynchronous requests, replies in random order (qualified / unqualified / prefixed rpc-reply), '
             'interleaved notifications and unknown messages, duplicate / unknown / missing message-ids (odd flavour), short writes, '
-            'arbitrary read segmentation; every step compared with the Lean model. Non-trivial = history of >= 8 commands; distinct by case.')
+            'arbitrary read segmentation; every step compared with the Lean model; socket sessions with 2-5 client threads, a first-request race, and an application that re-seeds the global RNG before every request. Non-trivial = history of >= 8 commands; distinct by case.')
 
     def e2e_cases(self, rng, tier):
         from cases import session_gen as SG
@@ -26,6 +26,9 @@ class C03(SessionCheck):
             out.append({'kind': 'e2e', 'sc': {'transport': ['unix', 'ssh', 'tls'][i % 3] if tier == 'thorough' else 'unix', 'profile': 'default',
                                               'threads': 3, 'per_thread': 1, 'window': 1, 'notifs': 0, 'seg': 'whole', 'first_race': True,
                                               'seed': rng.randrange(1 << 30)}})
+        for i in range(2 if tier == 'quick' else 12):
+            out.append({'kind': 'e2e', 'sc': {'transport': 'unix', 'profile': 'default', 'threads': 2 + i % 2, 'per_thread': 3, 'window': 3, 'notifs': 0,
+                                              'seg': 'whole', 'reseed': 20240607 + i, 'seed': rng.randrange(1 << 30)}})
         return out
 
     def oracle_e2e(self, case, io):
